@@ -643,7 +643,7 @@ func c20Run(c *fw.Case) {
 func init() {
 	fw.Register(&fw.Check{ID: "C20", Level: "exploration",
 		Technique: "runtime monitoring: the real v3 transaction / configuration / mastership reconcilers on the real v3 stores are stepped by a PRNG scheduler (one reconcile, append, rollback request, connection event or target restart per step, process kills just before chosen store writes); after every step the records are diffed into a history like the spec's, and Go transcriptions of Order, Consistency and (at the final fixed point) termination from spec/Config.tla are evaluated",
-		Rule:      "each case = 40..100 scheduler steps over up to 5 changes and 3 rollback requests on one target, paths {/foo,/bar}, values {v1,v2,delete, model-rejected, device-rejected}; half of the cases inject kills between store writes; distinct_nontrivial = distinct abstract states (all status fields + configuration indexes) visited",
+		Rule:      "each case = 40..100 scheduler steps over up to 5 changes and 3 rollback requests on one target, paths {/foo,/bar}, values {v1,v2,delete, model-rejected, device-rejected, integers 5 / -5 (equal bytes, different type options)}; half of the cases inject kills between store writes, half of those exactly one (its site keys a termination failure); distinct_nontrivial = distinct abstract states (all status fields + configuration indexes) visited",
 		Assumptions: []string{"reconcile steps are atomic except for injected kills before store writes", "the v3 northbound does not exist: the harness plays AppendChange / RollbackChange as spec/Transaction.tla defines them and creates the Configuration record with its mastership status allocated",
 			"history events are derived from the transaction records' status fields (the observable behaviour), not from the configuration writes the spec annotates"},
 		DistinctSet: "abstract_state", CaseTimeout: 300e9,
